@@ -347,6 +347,7 @@ func runCheck(id, tier string, workersOverride int, keep bool) int {
 
 	// race pass
 	raceInfo := map[string]interface{}{}
+	var raceErr error
 	if c.race {
 		rbin, _, err := build(c, scratch, true)
 		if err != nil {
@@ -366,8 +367,10 @@ func runCheck(id, tier string, workersOverride int, keep bool) int {
 		rs, rerrs, err := runWorkers(rbin, c, tier, 1, rb, seed, scratch, []string{"-mode", "race"},
 			[]string{"GORACE=halt_on_error=0 exitcode=0 history_size=2"})
 		if err != nil {
-			fmt.Fprintf(os.Stderr, "ENGINE-ERROR property=%s race pass: %v\n", id, err)
-			return exit(2)
+			// the scheduled exploration's verdict is not discarded: the failure of the free-running pass is reported as an
+			// engine error only if nothing else was found
+			raceErr = err
+			rs, rerrs = []*hl.Summary{nil}, []string{""}
 		}
 		races := parseRaces(rerrs[0])
 		raceInfo["race_reports"] = len(races)
@@ -478,6 +481,10 @@ func runCheck(id, tier string, workersOverride int, keep bool) int {
 		id, tier, cov["evaluations"], cov["distinct_nontrivial"], cov["states"], cov["transitions"], exhaustive, caps, len(knownHit), nviol, time.Since(start).Seconds())
 	if nviol > 0 {
 		return exit(1)
+	}
+	if raceErr != nil {
+		fmt.Fprintf(os.Stderr, "ENGINE-ERROR property=%s race pass: %v\n", id, raceErr)
+		return exit(2)
 	}
 	return exit(0)
 }
